@@ -70,7 +70,8 @@ def run(ctx):
         ctx.ob('C12.R2', f'scope:{name}', _where(v, vale_files),
                'all scope names used by the code are bound in the validator scope', not missing,
                f'unbound: {missing}')
-    ann = [d for d in sw if d['root'].startswith('Annotated') and d['status'] == 'ok']
+    # Annotated at the root or nested anywhere in the shape (a nested position localises the pith differently)
+    ann = [d for d in sw if 'Annotated' in d['shape'] and d['status'] == 'ok']
     unresolved = [d for d in ann if d['unresolved']]
     ctx.ob('C12.R2', 'scope:Annotated-production', 'beartype/_check/code/codemain.py:0',
            'wrapper scope of every Annotated shape binds every name used by its validators',
@@ -98,7 +99,8 @@ def run(ctx):
         if _gen.tainted(d, bad):
             continue
         nvals = len(d.get('valtrace', []))
-        k = f'{"metahint+" if "Annotated[Ignorable" not in d["shape"] and not d["root"].startswith("Annotated<") else ""}{nvals}-validators'
+        k = f'{"metahint+" if "Annotated[Ignorable" not in d["shape"] and not d["root"].startswith("Annotated<") else ""}{nvals}-validators' + (
+            '' if d['root'].startswith('Annotated') else ':nested')
         g = groups.setdefault(k, [0, None])
         g[0] += 1
         why = _gen.shape_failure(d, 'detect') or _gen.shape_failure(d, 'accept')
@@ -107,29 +109,9 @@ def run(ctx):
     for k, (n, why) in sorted(groups.items()):
         ctx.ob('C12.R4', f'annotated:{k}', 'beartype/_check/code/codemain.py:0',
                f'{n} Annotated shapes ({k}) equal metahint ∧ every validator', why is None, why or '')
-    # explanation path
-    em = ctx.repo.mod('beartype._check.error._pep.errpep593')
-    fn = em.defs.get('find_cause_pep593_annotated')
-    ctx.require(fn is not None, 'anchor vanished: find_cause_pep593_annotated')
-    loops = [n for n in walk_shallow(fn) if isinstance(n, ast.For)]
-    ok_loop = False
-    detail = 'no loop over the metadata'
-    for lp in loops:
-        it = norm(lp.iter)
-        src = None
-        for a in walk_shallow(fn):
-            if isinstance(a, ast.Assign) and isinstance(a.targets[0], ast.Name) and a.targets[0].id == it:
-                src = norm(a.value)
-        calls_is_valid = any(isinstance(c, ast.Call) and isinstance(c.func, ast.Attribute) and c.func.attr == 'is_valid'
-                             and isinstance(c.func.value, ast.Name) and isinstance(lp.target, ast.Name)
-                             and c.func.value.id == lp.target.id for c in ast.walk(lp))
-        sliced = isinstance(lp.iter, ast.Subscript)
-        if src and 'get_hint_pep593_metadata' in src and calls_is_valid and not sliced:
-            ok_loop = True
-        else:
-            detail = f'loop over {it} (= {src}); calls is_valid on the loop variable: {calls_is_valid}; sliced: {sliced}'
-    ctx.ob('C12.R4', 'explain:find_cause_pep593_annotated:loop', em.where(fn),
-           'iterates all validators returned by get_hint_pep593_metadata and tests each with is_valid', ok_loop, detail)
+    # explanation path: the Annotated cause finder interpreted with scripted validators (shared with C03.R8)
+    from .c03 import _annotated_explanation_order
+    _annotated_explanation_order(ctx, _gen.engines(ctx)[0].f, 'C12.R5')
     ctx.floor('C12.R4', sum(n for n, _ in groups.values()), 10, 'untainted Annotated shapes')
 
 
